@@ -2,6 +2,7 @@
 import contextlib
 import hashlib
 import os
+import random
 import shutil
 import time as _realtime
 
@@ -64,6 +65,49 @@ class FakeTime:
         return self.now
 
 
+class _Entries(list):
+    def __enter__(self):
+        return self
+
+    def __exit__(self, *a):
+        return False
+
+    def close(self):
+        pass
+
+
+class OsProxy:
+    """Stands in for `os` inside allmydata.storage.crawler: while env.order is set, listdir / scandir present the
+    entries of a directory in that order ("desc", or an int seed) - a directory listing is a set, the crawler may not
+    rely on any native order."""
+
+    def __init__(self, env):
+        self._env = env
+
+    def __getattr__(self, name):
+        return getattr(os, name)
+
+    def _permute(self, names):
+        order = self._env.order
+        names = list(names)
+        if order is None:
+            return names
+        names.sort()
+        if order == "desc":
+            names.reverse()
+        else:
+            random.Random("c26-order-%s-%s" % (order, ",".join(names))).shuffle(names)
+        return names
+
+    def listdir(self, path="."):
+        return self._permute(os.listdir(path))
+
+    def scandir(self, path="."):
+        with os.scandir(path) as it:
+            ents = {e.name: e for e in it}
+        return _Entries(ents[n] for n in self._permute(list(ents)))
+
+
 class Env:
     """Patches the clock of the modules under test; gives real servers in a scratch dir."""
 
@@ -75,6 +119,9 @@ class Env:
         self.saved = [m.time for m in self.mods]
         for m in self.mods:
             m.time = self.ft
+        self.order = None
+        self.saved_os = crawler.os
+        crawler.os = OsProxy(self)
         self.root = os.path.join(common.WORK, "c26-%d" % os.getpid())
         shutil.rmtree(self.root, ignore_errors=True)
         os.makedirs(self.root)
@@ -84,6 +131,7 @@ class Env:
     def close(self):
         for m, t in zip(self.mods, self.saved):
             m.time = t
+        self.mods[2].os = self.saved_os
         shutil.rmtree(self.root, ignore_errors=True)
 
     def new_server(self, cfg):
@@ -468,7 +516,7 @@ def monitor_share(ctx, cfg, now, sh, exists_after, case, full_pass):
         elif dup:
             sig = "shared-cancel-secret-expirer-raises"
         else:
-            sig = "expired-share-kept-" + mode
+            sig = "expired-share-kept-" + mode + (":same-prefix-dir" if case.get("same_prefix") else "")
         ctx.violation("share kept by a whole pass although expiration is enabled for its type and every lease is expired",
                       case, sig)
 
@@ -547,14 +595,18 @@ def canon_model_bucket(out):
 
 # ------------------------------------------------------------------ (B) whole cycles through start_slice
 
-def run_cycle(ctx, env, cfg, now, buckets):
-    """Fresh server, several buckets, one whole cycle driven by the real start_slice()."""
+def run_cycle(ctx, env, cfg, now, buckets, same_prefix=False, order=None):
+    """Fresh server, several buckets, one whole cycle driven by the real start_slice().
+    same_prefix: all storage indexes share their first 10 bits (one prefix directory); order: how the crawler is
+    shown directory listings ("desc" / int seed; None = native)."""
     from allmydata.storage.common import storage_index_to_dir, si_b2a
     ss = env.new_server(cfg)
     lc = ss.lease_checker
     info = []
     for bi, shares in enumerate(buckets):
         si = hashlib.sha256(b"cyc-%d-%d" % (env.n, bi)).digest()[:16]
+        if same_prefix:
+            si = bytes([0x5a, 0x40 | (si[1] & 0x3f)]) + si[2:]
         paths = [make_share(ss, si, k, sh["ty"], sh["leases"], False) for k, sh in enumerate(shares)]
         bdir = os.path.join(ss.sharedir, storage_index_to_dir(si))
         os.makedirs(bdir, exist_ok=True)
@@ -562,11 +614,16 @@ def run_cycle(ctx, env, cfg, now, buckets):
     info.sort()   # crawl order: prefixes sorted, bucket names sorted within (names start with their prefix)
     env.ft.now = now
     raised = None
+    env.order = order
     try:
         with tz_env(cfg.get("tz")):
             lc.start_slice()
     except Exception as e:   # noqa
         raised = exc_name(e)
+    finally:
+        env.order = None
+    if same_prefix:
+        ctx.count("cycle-runs:one-prefix-dir:%d-buckets" % len(buckets))
     outs, lines = [], []
     for (name, bdir, shares, paths, order) in info:
         per = []
@@ -575,7 +632,8 @@ def run_cycle(ctx, env, cfg, now, buckets):
             rem = read_leases(paths[k], shares[k]["leases"]) if exists else []
             per.append("ok/%d/%s" % (1 if exists else 0, ",".join("%d@%d" % x for x in rem) or "-"))
             monitor_share(ctx, cfg, now, shares[k], exists,
-                          {"cfg": cfg, "now": now, "buckets": buckets, "kind": "cycle"}, raised is None)
+                          {"cfg": cfg, "now": now, "buckets": buckets, "kind": "cycle", "same_prefix": same_prefix,
+                           "order": order}, raised is None)
             ctx.case(case_key(cfg, now, shares[k]) if shares[k]["leases"] else None)
         outs.append(";".join(per))
         lines.append("gc %s %d %s" % (cfg_tokens(cfg), now, " ".join(share_token(shares[k]) for k in order)))
@@ -634,6 +692,27 @@ def corpus():
                 res.append((base, now, [{"ty": ty, "leases": leases}], False))
     res.append((dict(cut, enabled=False), now, [{"ty": "i", "leases": [(1, now - 400 * DAY, 1)]}], True))
     res.append((dict(cut, imm=False), now, [{"ty": "i", "leases": [(1, now - 400 * DAY, 1)]}, {"ty": "m", "leases": [(2, now - 400 * DAY, 2)]}], False))
+    return res
+
+
+def same_prefix_corpus():
+    """(seeded/C26-d) a populated prefix directory - 6 and 22 storage indexes sharing their first 10 bits - listed to the
+    crawler in descending / seeded order: every all-expired share of an enabled type must be gone after ONE cycle."""
+    res = []
+    cutoff = MID - 40 * DAY
+    cut = {"enabled": True, "imm": True, "mut": True, "mode": "cutoff-date", "override": None, "cutoff": cutoff}
+    ov = {"enabled": True, "imm": True, "mut": True, "mode": "age", "override": 10 * DAY, "cutoff": None, "prod": True, "spell": 3}
+    for cfg in (cut, ov):
+        for nb in (6, 22):
+            for order in ("desc", 5):
+                buckets = []
+                for b in range(nb):
+                    ty = "im"[b % 2]
+                    if b % 5 == 4:      # a bucket that must stay: one lease renewed today
+                        buckets.append([{"ty": ty, "leases": [(1, T0 - 300 * DAY, 1), (2, T0, 2)]}])
+                    else:
+                        buckets.append([{"ty": ty, "leases": [(1, T0 - 300 * DAY - b, 1)]}])
+                res.append((cfg, T0, buckets, True, order))
     return res
 
 
@@ -727,7 +806,8 @@ def _run(ctx, env):
     if ctx.replay:
         c = ctx.replay["case"]
         if c.get("kind") == "cycle":
-            impl, lines = run_cycle(ctx, env, c["cfg"], c["now"], [[fix_share(s) for s in b] for b in c["buckets"]])
+            impl, lines = run_cycle(ctx, env, c["cfg"], c["now"], [[fix_share(s) for s in b] for b in c["buckets"]],
+                                    c.get("same_prefix", False), c.get("order"))
             ctx.compare("whole cycle", [c], [impl], [canon_model_cycle(ctx.model(lines))])
             return
         cases = [(c["cfg"], c["now"], [fix_share(s) for s in c["shares"]], c.get("via_server", False))]
@@ -761,17 +841,26 @@ def _run(ctx, env):
     # (B) whole cycles: distinct cancel secrets (a raising bucket would abort the cycle; those are covered by (A))
     ncyc = 0 if os.environ.get("VERIF_CORPUS_ONLY") else ctx.budget(60, 1200)
     cyc_cases, cyc_impl, cyc_model = [], [], []
-    fixed = cycle_corpus()
+    fixed = same_prefix_corpus() + cycle_corpus()
     for i in range(len(fixed) + ncyc):
+        same, order = False, None
         if i < len(fixed):
-            cfg, now, buckets = fixed[i]
+            cfg, now, buckets = fixed[i][:3]
+            if len(fixed[i]) > 3:
+                same, order = fixed[i][3], fixed[i][4]
+        elif i % 4 == 0:
+            # populated prefix directory: 6..22 buckets whose storage indexes share their first 10 bits
+            cfg = gen_cfg(rng)
+            now = T0 + rng.choice([0, 1, 200 * DAY])
+            buckets = [[gen_share(rng, cfg, now, 100 * b + 1, 0.0)] for b in range(rng.choice([6, 9, 14, 22]))]
+            same, order = True, rng.choice(["desc", rng.randrange(1000), None])
         else:
             cfg = gen_cfg(rng)
             now = T0 + rng.choice([0, 1, 200 * DAY])
             buckets = [[gen_share(rng, cfg, now, 100 * b + 10 * k + 1, 0.0) for k in range(rng.choice([1, 1, 2]))]
                        for b in range(rng.choice([1, 2, 3, 4]))]
-        a, ls = run_cycle(ctx, env, cfg, now, buckets)
-        cyc_cases.append({"cfg": cfg, "now": now, "buckets": buckets, "kind": "cycle"})
+        a, ls = run_cycle(ctx, env, cfg, now, buckets, same, order)
+        cyc_cases.append({"cfg": cfg, "now": now, "buckets": buckets, "kind": "cycle", "same_prefix": same, "order": order})
         cyc_impl.append(a)
         cyc_model.append(canon_model_cycle(ctx.model(ls)))
     if all(m is not None for m in cyc_model):
